@@ -133,6 +133,10 @@ pub enum Mutn {
     Patch(Vec<(usize, Vec<u8>)>),
     Truncate(usize),
     Extend(usize, u8),
+    /// n DIFAT sectors appended to the file, chained, every cell of which (and every DIFAT cell of the
+    /// header) names the same sector `target` as a FAT sector; header counts set to match.  A small
+    /// input that asks the reader to load one sector thousands of times.
+    Amplify(usize, u32),
 }
 
 pub fn apply(base: &[u8], m: &Mutn) -> Vec<u8> {
@@ -147,6 +151,27 @@ pub fn apply(base: &[u8], m: &Mutn) -> Vec<u8> {
         }
         Mutn::Truncate(n) => b.truncate(*n),
         Mutn::Extend(n, f) => b.extend(std::iter::repeat(*f).take(*n)),
+        Mutn::Amplify(n, target) => {
+            if b.len() >= 512 {
+                let shift = u16::from_le_bytes([b[30], b[31]]) as u32;
+                let sl = 1usize << shift.min(12);
+                let cells = sl / 4;
+                let first_new = ((b.len() / sl).saturating_sub(1)) as u32;
+                for i in 0..*n {
+                    for _ in 0..cells - 1 {
+                        b.extend_from_slice(&target.to_le_bytes());
+                    }
+                    let next = if i + 1 < *n { first_new + i as u32 + 1 } else { 0xFFFF_FFFE };
+                    b.extend_from_slice(&next.to_le_bytes());
+                }
+                b[68..72].copy_from_slice(&first_new.to_le_bytes());
+                b[72..76].copy_from_slice(&(*n as u32).to_le_bytes());
+                for i in 0..109 {
+                    b[76 + 4 * i..80 + 4 * i].copy_from_slice(&target.to_le_bytes());
+                }
+                b[44..48].copy_from_slice(&((109 + n * (cells - 1)) as u32).to_le_bytes());
+            }
+        }
     }
     b
 }
@@ -285,6 +310,15 @@ pub fn field_mutations(base: &[u8], full16: bool) -> Vec<Mutn> {
     for n in [1usize, 511, 512, 4096] {
         for f in [0u8, 0xFF] {
             out.push(Mutn::Extend(n, f));
+        }
+    }
+    // a DIFAT that lists one sector as a FAT sector over and over
+    for n in [1usize, 4, 16, 64] {
+        if n * sl > (1 << 17) {
+            continue;
+        }
+        for target in [p.fat_sectors.first().copied().unwrap_or(0), 0, nsec.saturating_sub(1)] {
+            out.push(Mutn::Amplify(n, target));
         }
     }
     // extensions that give the file more sectors than its FAT sectors have cells for
